@@ -5,6 +5,8 @@ relational for the range-expansion / fitting heuristics: the Lean monitor `insid
 (lean/PM/Monitor.lean) is evaluated on every step delete_range / replace_range / replace / delete /
 replace_with emit for ranges inside an isolating node, and each emitted step is applied by the model
 too; lift targets and approved splits must stay inside.
+`delete_range`'s widened range is tied exactly to lean/PM/RangeOps.lean (harness/rangeplan.py), for which Props/C18.lean
+proves that it stays inside an isolating node containing both ends.
 Search: tokens before the node's opening and after its closing unchanged, the node itself (type,
 attributes, marks) still there — for all ranges inside isolating nodes incl. their whole content.
 """
@@ -13,7 +15,7 @@ from prosemirror.transform import Transform
 from prosemirror.transform.replace import covered_depths
 from prosemirror.transform.structure import can_split, lift_target
 
-from .. import core, gen, ops, schemas
+from .. import core, gen, ops, rangeplan, schemas
 from ..codec import doc_tokens
 from ..core import outcome
 
@@ -69,6 +71,12 @@ def run(ctx):
         outs = ctx.driver.run(reqs) if reqs else []
         for req, (op, replay, exp), out in zip(reqs, metas, outs):
             ctx.count("model_requests")
+            if op in rangeplan.EXACT_OPS:
+                # lean/PM/RangeOps.lean, Fitter.lean: the range delete_range hands to Transform.delete and the step replace_step
+                # emits, exact (incl. "the code raises")
+                if rangeplan.answer(out) != exp:
+                    ctx.mismatch(op, replay, exp, out)
+                continue
             if op == "inside":
                 # the monitor is sufficient, not necessary: a step may re-create the node's own close tokens from its slice
                 # (range reaching past the closing) and still leave everything outside intact — such steps are decided by
@@ -118,6 +126,12 @@ def run(ctx):
                 for (f, t) in pairs:
                     if ctx.time_left() < 0:
                         break
+                    # the range delete_range widens [f, t] to (tied exactly to the model, for which Props/C18.lean proves
+                    # `deleteRange_inside_isolating`): it must stay within the isolating node's content
+                    tgt = rangeplan.tie_delete_range(ctx, info, d, f, t, reqs, metas, extra={"iso": [a, b]})
+                    if tgt != rangeplan.RAISES and not (a + 1 <= tgt[0] and tgt[1] <= b - 1):
+                        ctx.violation("delete_range-crosses", "delete_range widens a range inside an isolating node beyond the node's content",
+                                      {"schema": info.name, "doc": d.to_json(), "from": f, "to": t, "iso": [a, b], "target": tgt})
                     name = rng.choice(kinds)
                     if name in ("delete_range", "delete"):
                         args = [f, t]
@@ -131,6 +145,16 @@ def run(ctx):
                         args = [f, t, n2]
                     if any(x is None for x in args):
                         continue
+                    # the Fitter (lean/PM/Fitter.lean): the step replace_step emits for the request inside the node, exactly
+                    if name in ("replace", "replace_range"):
+                        rangeplan.tie_replace_step(ctx, info, d, f, t, args[2], reqs, metas)
+                    elif name in ("delete", "delete_range"):
+                        rangeplan.tie_replace_step(ctx, info, d, f, t, Slice.empty, reqs, metas)
+                        rangeplan.tie_delete_range_step(ctx, info, d, f, t, reqs, metas)
+                    elif name in ("replace_with", "replace_range_with"):
+                        rangeplan.tie_replace_step(ctx, info, d, f, t, Slice(Fragment.from_(n2), 0, 0), reqs, metas)
+                    else:
+                        rangeplan.tie_replace_step(ctx, info, d, f, f, Slice(Fragment.from_(n2), 0, 0), reqs, metas)
                     tr = Transform(d)
                     st, val, added = ops.run_op(tr, lambda tr_: getattr(tr_, name)(*args))
                     replay = {"schema": info.name, "doc": d.to_json(), "iso": [a, b], **ops.describe(name, args)}
